@@ -87,7 +87,7 @@ def gen(rng, idx, tier):
     names = list(dict.fromkeys(names))
     glyphs = []
     used = set()
-    pool_bmp = [0x41, 0x61, 0x20, 0x2D, 0xE9, 0x410, 0x5D0, 0x627, 0x3042, 0x4E00, 0xFFFD, 0xFFFF,
+    pool_bmp = [0x0, 0x0, 0xD, 0x41, 0x61, 0x20, 0x2D, 0xE9, 0x410, 0x5D0, 0x627, 0x3042, 0x4E00, 0xFFFD, 0xFFFF,
                 0xFB01, 0x1, 0x7F, 0x2000]
     pool_sup = [0x10000, 0x1F600, 0x1D4A2, 0x20000, 0x10FFFF, 0xE0100, 0x1F1E6]
     use_sup = rng.random() < 0.4
